@@ -14,10 +14,10 @@ import (
 type RootKind int
 
 const (
-	Fresh    RootKind = iota // allocated in the analysed code (Alloc, new, make, literal, external constructor result, proto.Clone)
-	Param                    // parameter of an analysis root function
-	FreeVar                  // captured variable whose cell could not be resolved
-	GlobalRoot               // package-level variable
+	Fresh      RootKind = iota // allocated in the analysed code (Alloc, new, make, literal, external constructor result, proto.Clone)
+	Param                      // parameter of an analysis root function
+	FreeVar                    // captured variable whose cell could not be resolved
+	GlobalRoot                 // package-level variable
 	UnknownRoot
 )
 
